@@ -368,6 +368,34 @@ var xPieces = []piece{
 			fmt.Sprintf("echo []%s{{1, nil}, {a: 2}}, map[string][]int{\"a\": {1}}, [...]int{1, 2, %d}, &%s{b: [\"x\"]}, struct{ a int }{1}, [2][]string{{\"a\"}, nil}, map[[2]int]*%s{{1, 2}: nil}, []*%s{{a: 1}}[0].a, []func() int{func() int { return %d }}[0]()", t, r.Intn(9), t, t, t, r.Intn(9)),
 			fmt.Sprintf("var (\n\tf%s func(a int, b ...string) (n int, err error)\n\tc%s chan<- []int\n\tp%s **%s\n\tm%s map[string]map[int]bool\n\tarr%s [3][2]int\n)\necho f%s == nil, c%s == nil, p%s == nil, len(m%s), arr%s", v, v, v, t, v, v, v, v, v, v, v))
 	}},
+	// multi-file packages: a second normal file, in-package *_test.xgo files sorting before and after,
+	// aliases/imports declared in one file and first used from another
+	{"multifile", func(r *vh.Rand, p *XProg) {
+		p.Imports["bytes"] = true
+		id := p.id("mf")
+		p.Decls = append(p.Decls,
+			fmt.Sprintf("type Buf%s = bytes.Buffer", id),
+			fmt.Sprintf("type pair%s struct {\n\tA, B int\n}", id))
+		p.Extra["a_"+id+"_test.xgo"] = fmt.Sprintf("func useBuf%[1]s() int {\n\tvar b Buf%[1]s\n\tb.WriteString(\"x%[2]d\")\n\treturn b.Len() + helper%[1]s(pair%[1]s{1, 2})\n}\n", id, r.Intn(100))
+		p.Extra["zz_"+id+"_test.xgo"] = fmt.Sprintf("import \"strings\"\n\nfunc late%[1]s() string {\n\treturn strings.Repeat(\"z\", helper%[1]s(pair%[1]s{%[2]d, 1}))\n}\n", id, r.Intn(4))
+		p.Extra["lib_"+id+".xgo"] = fmt.Sprintf("import \"sort\"\n\ntype Ints%[1]s = sort.IntSlice\n\nfunc helper%[1]s(p pair%[1]s) int {\n\treturn p.A + p.B\n}\n\nfunc sorted%[1]s(a []int) []int {\n\tv := Ints%[1]s(a)\n\tv.Sort()\n\treturn a\n}\n", id)
+		p.Stmts = append(p.Stmts, fmt.Sprintf("echo helper%[1]s(pair%[1]s{%[2]d, 3}), sorted%[1]s([3, 1, 2])", id, r.Intn(9)))
+	}},
+	// errwrap on callees with 1..4 values before the error, for every operator
+	{"errwrap-arity", func(r *vh.Rand, p *XProg) {
+		p.Imports["errors"] = true
+		id := p.id("ew")
+		p.Decls = append(p.Decls,
+			fmt.Sprintf("func e0%s(fail bool) error {\n\tif fail {\n\t\treturn errors.New(\"e0\")\n\t}\n\treturn nil\n}", id),
+			fmt.Sprintf("func e1%s(fail bool) (int, error) {\n\tif fail {\n\t\treturn 0, errors.New(\"e1\")\n\t}\n\treturn %d, nil\n}", id, r.Intn(9)),
+			fmt.Sprintf("func e2%s(fail bool) (int, string, error) {\n\tif fail {\n\t\treturn 0, \"\", errors.New(\"e2\")\n\t}\n\treturn 1, \"b\", nil\n}", id),
+			fmt.Sprintf("func e3%s(fail bool) (int, string, []int, error) {\n\tif fail {\n\t\treturn 0, \"\", nil, errors.New(\"e3\")\n\t}\n\treturn 1, \"b\", [3], nil\n}", id),
+			fmt.Sprintf("func e4%s(fail bool) (a int, b string, c float64, d bool, err error) {\n\tif fail {\n\t\terr = errors.New(\"e4\")\n\t}\n\treturn 1, \"b\", 2.5, true, err\n}", id),
+			fmt.Sprintf("func all%[1]s(fail bool) (n int, err error) {\n\te0%[1]s(fail)?\n\ta := e1%[1]s(false)?\n\tb, s := e2%[1]s(false)!\n\tc, t, u := e3%[1]s(false)!\n\td, v, f, g := e4%[1]s(false)!\n\techo s, t, u, v, f, g\n\treturn a + b + c + d, nil\n}", id))
+		p.Stmts = append(p.Stmts,
+			fmt.Sprintf("e0%[1]s(false)!\nx%[1]s := e1%[1]s(false)!\ny%[1]s, z%[1]s := e2%[1]s(false)!\np%[1]s, q%[1]s, r%[1]s := e3%[1]s(false)!\na%[1]s, b%[1]s, c%[1]s, d%[1]s := e4%[1]s(false)!\necho x%[1]s, y%[1]s, z%[1]s, p%[1]s, q%[1]s, r%[1]s, a%[1]s, b%[1]s, c%[1]s, d%[1]s", id),
+			fmt.Sprintf("echo all%[1]s(false)\necho all%[1]s(true)\necho e1%[1]s(true)?:%[2]d, e1%[1]s(false)?:7", id, r.Intn(9)))
+	}},
 	{"closures", func(r *vh.Rand, p *XProg) {
 		f := p.id("counter")
 		p.Decls = append(p.Decls, fmt.Sprintf("func %s(step int) func() int {\n\tn := 0\n\treturn func() int {\n\t\tn += step\n\t\treturn n\n\t}\n}", f))
